@@ -104,7 +104,9 @@ Section Viz.
     sconcat (map (fun d => cluster (nstr d) (filter (fun id => Nat.eqb (n_depth (get_node inp m id)) d) ids))
                  (depths_sorted m ids)).
 
-  (* add_terminal_node: None = layers.last().unwrap() panics *)
+  (* add_terminal_node: None = layers.last().unwrap() panics.
+     clean.rs (after the fix of defect D8): `if from != to && self.best_node.is_some()` — when every node of the last expanded
+     layer is a dead end no terminal layer is recorded and layers.last() is NOT a terminal layer; pooled.rs records the empty layer *)
   Definition viz_terminal (m : @mdd St) : option string :=
     match rev (m_layers m) with
     | [] => None
@@ -112,6 +114,7 @@ Section Viz.
         match lastl with
         | [] => Some ""
         | _ =>
+            if negb (is_pooled (ci_flavour inp)) && (match m_best m with None => true | Some _ => false end) then Some "" else
             let vmax := opt_default IMAX (zmax_list (map (fun id => n_vtop (get_node inp m id)) lastl)) in
             Some (tab ++ "terminal [shape=" ++ dq ++ "circle" ++ dq ++ ", label=" ++ dq ++ dq ++ ", style=" ++ dq ++ "filled" ++ dq
                   ++ ", color=" ++ dq ++ "black" ++ dq ++ ", group=" ++ dq ++ "terminal" ++ dq ++ "];" ++ nl
